@@ -139,8 +139,9 @@ int main(int argc,char **argv){ vf::init(argc,argv,"C17","model_checking");
 	if(!vf::C().replay_file.empty()) printf("replay: the replay file names scenario, reactor and schedule (choice vector); re-running the quick tier reproduces it\n");
 	std::vector<std::pair<int,int> > jobs; for(size_t si=0;si<S.size();si++) for(int r=0;r<3;r++) jobs.push_back(std::make_pair(si,r)); jobs.push_back(std::make_pair(-1,0)); for(int k=0;k<3;k++) jobs.push_back(std::make_pair(-2,k));
 	vf::parallel(jobs.size(),16,[&](int j){ if(jobs[j].first==-2){ timers_pass(jobs[j].second,3); } else if(jobs[j].first<0){ Scenario p=pool_scenario(); run_scenario(p,0,"n/a",bound,true); } else { int sb= (jobs[j].first==1||jobs[j].first==2)? bound-1 : bound; /* S2 and S3 have many more scheduling points (time advances, five threads) */ run_scenario(S[jobs[j].first],reactors[jobs[j].second],rn[jobs[j].second],sb,false); } vf::guard("executions",n_exec); },th?1700:280);
-	{ std::string cmd=vf::verif_dir()+"/build/bin/C17.tsan --tier "+vf::C().tier+" --pass tsan --result '"+vf::scratch_dir()+"/tsan.res' 2>'"+vf::scratch_dir()+"/tsan.err'"; int st=system(cmd.c_str()); FILE *f=fopen((vf::scratch_dir()+"/tsan.res").c_str(),"rb"); bool merged=f&&vf::merge_ctx(f); if(f) fclose(f); std::string err; { std::ifstream e(vf::scratch_dir()+"/tsan.err"); std::stringstream ss; ss<<e.rdbuf(); err=ss.str(); }
-	  if(err.find("ThreadSanitizer: data race")!=std::string::npos||(WIFEXITED(st)&&WEXITSTATUS(st)==66)){ size_t p=err.find("WARNING: ThreadSanitizer"); std::string rep= p==std::string::npos?err.substr(0,1500):err.substr(p,1500); std::string fn; size_t q=rep.find("#0 "); if(q!=std::string::npos){ size_t e2=rep.find('\n',q); fn=rep.substr(q,e2-q); } vf::violation("data-race","ThreadSanitizer reports a data race in the free-running pass: "+fn,"\"report\":"+vf::jstr(rep)); } else if(!merged||st!=0){ fprintf(stderr,"harness error: tsan pass failed (status %d): %s\n",st,err.substr(0,800).c_str()); vf::C().harness_error=true; } }
+	{ std::string cmd=std::string("timeout -k 5 ")+(vf::thorough()?"1500 ":"400 ")+vf::verif_dir()+"/build/bin/C17.tsan --tier "+vf::C().tier+" --pass tsan --result '"+vf::scratch_dir()+"/tsan.res' 2>'"+vf::scratch_dir()+"/tsan.err'"; int st=system(cmd.c_str()); FILE *f=fopen((vf::scratch_dir()+"/tsan.res").c_str(),"rb"); bool merged=f&&vf::merge_ctx(f); if(f) fclose(f); std::string err; { std::ifstream e(vf::scratch_dir()+"/tsan.err"); std::stringstream ss; ss<<e.rdbuf(); err=ss.str(); }
+	  if(WIFEXITED(st)&&(WEXITSTATUS(st)==124||WEXITSTATUS(st)==137)){ vf::violation("free-running-pass-hang","the free-running ThreadSanitizer pass did not terminate within its time limit (livelock, deadlock or a corrupted structure): "+err.substr(0,300),"\"report\":"+vf::jstr(err.substr(0,1500))); }
+	  else if(err.find("ThreadSanitizer: data race")!=std::string::npos||(WIFEXITED(st)&&WEXITSTATUS(st)==66)){ size_t p=err.find("WARNING: ThreadSanitizer"); std::string rep= p==std::string::npos?err.substr(0,1500):err.substr(p,1500); std::string fn; size_t q=rep.find("#0 "); if(q!=std::string::npos){ size_t e2=rep.find('\n',q); fn=rep.substr(q,e2-q); } vf::violation("data-race","ThreadSanitizer reports a data race in the free-running pass: "+fn,"\"report\":"+vf::jstr(rep)); } else if(!merged||st!=0){ fprintf(stderr,"harness error: tsan pass failed (status %d): %s\n",st,err.substr(0,800).c_str()); vf::C().harness_error=true; } }
 	vf::require_guard("executions"); vf::require_guard("executions_with_virtual_time_advance"); vf::require_guard("scenarios_with_several_outcomes"); vf::require_guard("tsan_free_runs"); vf::require_guard("many_timer_cases_with_table_growth");
 	return vf::finish();
 #endif
